@@ -64,11 +64,13 @@ func sameNamedTypesFamily(r *Run) {
 			same, unique := b()
 			for _, src := range tmpls {
 				render := func(v any) string {
-					out, err := liquid.NewEngine().ParseAndRenderString(src, liquid.Bindings{"rows": v})
-					if err != nil {
-						return "err " + err.Error()
-					}
-					return "ok " + out
+					return guard(func() string { // a panic of the real code is a result ("panic"), not a crash of the harness
+						out, err := liquid.NewEngine().ParseAndRenderString(src, liquid.Bindings{"rows": v})
+						if err != nil {
+							return "err " + err.Error()
+						}
+						return "ok " + out
+					})
 				}
 				got, want := render(same), render(unique)
 				r.Count("same-named-types")
